@@ -24,7 +24,14 @@ import (
 	"time"
 )
 
-const verifRoot = "/verif"
+// verifRoot is the directory holding check, harness/, replays/, evidence/:
+// /verif, or a snapshot of it when the check script is run from one.
+var verifRoot = func() string {
+	if r := os.Getenv("VERIF_ROOT"); r != "" {
+		return r
+	}
+	return "/verif"
+}()
 
 func main() {
 	os.Exit(run(os.Args[1:]))
